@@ -91,6 +91,9 @@ func vf10Deadlines(n *wire.Net, real wire.Side, succeeded bool) string {
 		if !n.ReadDeadline(real).IsZero() {
 			return "VIOL[c10-obfs4-deadline-not-cleared]: a read deadline is still armed after a successful handshake"
 		}
+		if wd := n.WriteDeadline(real); !wd.IsZero() {
+			return fmt.Sprintf("VIOL[c10-obfs4-deadline-not-cleared]: a write deadline (%v) is still armed after a successful handshake: every Write fails once the handshake timeout has passed", wd)
+		}
 	}
 	return ""
 }
